@@ -82,6 +82,15 @@ def main():
                 lines = [l.strip() for l in oc.splitlines() if l.strip().startswith("class=")]
                 meta["checks"][c] = {"exit": rcc, "caught": rcc == 1 and "VIOLATION property=%s" % c in oc, "wall_s": int(time.time() - t),
                                      "first_classes": [l[:220] for l in lines[:3]], "cmd": "GASOL_REPO=<scratch tree with patch> bin/vcheck %s --tier %s" % (c, tier)}
+                # the replay file of the first violation must reproduce it, twice, with the same class
+                rp = [l.split("replay=")[1].strip() for l in oc.splitlines() if l.startswith("VIOLATION property=%s" % c)]
+                if rp:
+                    outs = []
+                    for _ in range(2):
+                        rcr, orr = sh("%s/bin/vcheck %s --replay %s" % (VERIF, c, rp[0]), cwd=VERIF, env=env, timeout=3600)
+                        outs.append((rcr, [l for l in orr.splitlines() if l.startswith("replay:")]))
+                    meta["checks"][c]["replay_reproduces"] = outs[0][0] == 1 and outs[0] == outs[1] and any("matches" in l for l in outs[0][1])
+                    meta["checks"][c]["replay_lines"] = outs[0][1][:2]
             sh("rm -rf /tmp/seedev-%s /tmp/seedout-%s" % (name, name))
     finally:
         sh("git -C /repo worktree remove --force %s" % wt)
